@@ -4,7 +4,7 @@
   (section <cfg> group ref kProvider kParams)         → (ok <provider cfg | none> <params table>) | missing | malformed
   (bank (<module> …) (<op> …))                        → (<result> …)
       module ::= (<mod> (sub …) (<class> …))          mod ::= (pkg sub|none)
-      class  ::= (<mod> qn alias|none abstract (<classid> …) (<mod> …))      classid ::= (<mod> qn)
+      class  ::= (<mod> qn alias|none unimpl inner (<classid> …) (<mod> …))      classid ::= (<mod> qn)
       op     ::= (import <mod>) | (get <classid> <ref> (<mod> …))            ref ::= (a n) | (q <mod> qn)
       result ::= ok | notfound | (err e) | (ok <classid>) | bad-order
   cfg ::= (s n) | (l n …) | (t (k <cfg>) …)
@@ -57,8 +57,8 @@ def classId? : Sexp → Option ClassId
   | _ => none
 
 def class? : Sexp → Option ClassDef
-  | .list [m, q, a, ab, .list ps, .list paths] => do
-    pure ⟨⟨← mod? m, ← q.nat?⟩, ← optNat? a, ← bool? ab, ← ps.mapM classId?, ← paths.mapM mod?⟩
+  | .list [m, q, a, ab, inner, .list ps, .list paths] => do
+    pure ⟨⟨← mod? m, ← q.nat?⟩, ← optNat? a, ← bool? ab, ← bool? inner, ← ps.mapM classId?, ← paths.mapM mod?⟩
   | _ => none
 
 def module? : Sexp → Option (Mod × ModuleDef)
